@@ -20,6 +20,7 @@ func init() {
 func propC08(a *Analysis, r *Registry) {
 	b := NewB(a, r)
 	X := b.X
+	S := X.S
 	const rB = "B-C08 formula"
 	tiny := X.S.Float(math.SmallestNonzeroFloat64)
 	rz := func(e string) string { return "ite(abs(" + e + ")<tiny, tiny, " + e + ")" }
@@ -283,7 +284,99 @@ func propC08(a *Analysis, r *Registry) {
 					}
 				}
 			}
-			b.AnyOf(product("n-(k-1)", "n1+1", "n1", "n1<=n"), product("n", "n1-1", "n1", "n-k<n1"), product("0", "n1+1", "(n-n1)", "n1<k"))
+			// however the loop counts: with every counter written as its value in iteration t
+			// (start + t*step), the factor multiplied in is A + S*t (S = ±1) and the loop's guard
+			// holds exactly for t = 0 … T-1; the product is that of the k factors n-k+1 … n when
+			// T = k and the run A, A+S, … starts at n-k+1 going up or at n going down
+			affine := func() {
+				e := X.EnvFor(fn, "n", "k")
+				phis := fc.loopPhis(sv)
+				var numer *RF
+				var F *RF
+				for _, ph := range phis {
+					pi, pn := fc.Recurrence(ph)
+					if pi.Equal(S.Int(1)) {
+						if q := pn.Div(ph); len(FindAtomID(q, ph.SingleAtom().ID)) == 0 {
+							numer, F = ph, q
+						}
+					}
+				}
+				if numer == nil {
+					r.Fail(rB, "mathx.Choose/small-product", a.W.InstrPos(small), "no running product starting at 1")
+					return
+				}
+				e.Set("numer", numer, nil)
+				b.Eq(rB, "mathx.Choose/small-result", a.W.InstrPos(small), sv, e, "idiv(numer, mathx.smallFact[k])")
+				hdr := X.phiOf[numer.SingleAtom().ID].Block()
+				pfc := X.phiFC[numer.SingleAtom().ID]
+				t := S.Var("iter:t", true)
+				sub := map[AtomID]*RF{}
+				for _, in := range hdr.Instrs {
+					ph, ok := in.(*ssa.Phi)
+					if !ok {
+						break
+					}
+					c := pfc.Val(ph)
+					cat := c.SingleAtom()
+					if cat == nil || X.phiOf[cat.ID] != ph || cat.ID == numer.SingleAtom().ID {
+						continue
+					}
+					ci, cn := pfc.Recurrence(c)
+					if d, isC := cn.Sub(c).IsConst(); isC {
+						sub[cat.ID] = ci.Add(S.Const(d).Mul(t))
+					}
+				}
+				Ft := F.Subst(sub)
+				tid := t.SingleAtom().ID
+				dF, okD := Ft.Deriv(tid)
+				A := Ft.Subst(map[AtomID]*RF{tid: S.Int(0)})
+				if !okD || !(dF.Equal(S.Int(1)) || dF.Equal(S.Int(-1))) {
+					r.Fail(rB, "mathx.Choose/small-product", a.W.InstrPos(small), "the factor does not move by one per iteration: "+clip(Ft.String(), 120))
+					return
+				}
+				_, guard, _, msg := b.loopGuard(pfc, hdr)
+				if msg != "" {
+					r.Fail(rB, "mathx.Choose/small-bound", a.W.InstrPos(small), msg)
+					return
+				}
+				g := guard.Subst(sub)
+				neg := false
+				ga := g.SingleAtom()
+				if ga != nil && ga.Name == "not" {
+					neg = true
+					ga = ga.Args[0].SingleAtom()
+				}
+				if ga == nil || (ga.Name != "cmp<" && ga.Name != "cmp<=") {
+					r.Fail(rB, "mathx.Choose/small-bound", a.W.InstrPos(small), "the loop's guard is not one ordering test of its counters: "+clip(g.String(), 160))
+					return
+				}
+				D := ga.Args[0].Sub(ga.Args[1])
+				dD, okDD := D.Deriv(tid)
+				D0 := D.Subst(map[AtomID]*RF{tid: S.Int(0)})
+				var T *RF
+				switch {
+				case !okDD:
+				case !neg && ga.Name == "cmp<" && dD.Equal(S.Int(1)): // D0+t < 0
+					T = D0.Neg()
+				case !neg && ga.Name == "cmp<=" && dD.Equal(S.Int(1)): // D0+t <= 0
+					T = D0.Neg().Add(S.Int(1))
+				case neg && ga.Name == "cmp<" && dD.Equal(S.Int(-1)): // D0-t >= 0
+					T = D0.Add(S.Int(1))
+				case neg && ga.Name == "cmp<=" && dD.Equal(S.Int(-1)): // D0-t > 0
+					T = D0
+				}
+				if T == nil {
+					r.Fail(rB, "mathx.Choose/small-bound", a.W.InstrPos(small), "the guard does not bound the number of iterations: "+clip(g.String(), 160))
+					return
+				}
+				b.Eq(rB, "mathx.Choose/small-bound", a.W.InstrPos(small), T, e, "k")
+				if dF.Equal(S.Int(1)) {
+					b.Eq(rB, "mathx.Choose/small-product", a.W.InstrPos(small), A, e, "n-k+1")
+				} else {
+					b.Eq(rB, "mathx.Choose/small-product", a.W.InstrPos(small), A, e, "n")
+				}
+			}
+			b.AnyOf(affine, product("n-(k-1)", "n1+1", "n1", "n1<=n"), product("n", "n1-1", "n1", "n-k<n1"), product("0", "n1+1", "(n-n1)", "n1<k"))
 		})
 	}
 	if fn := b.Fn(rB, "mathx.init#1"); fn != nil {
